@@ -540,6 +540,21 @@ class Closing(State):
 
             if has_recv_dpa(self.msg):
                 self.event_rcv_dpa()
+                return
+
+        #: A peer that keeps the connection but never answers the DPR is not
+        #: waited for beyond the watchdog timeout.
+        self.waiting_time = getattr(self, "waiting_time", 0) + \
+                            STATE_MACHINE_TICKER
+
+        if self.waiting_time >= self.association.watchdog_timeout:
+            self.event_timeout()
+
+
+    def event_timeout(self) -> None:
+        closing_logger.debug("Event has been triggered.")
+
+        self.set_closed_state(force=True)
 
 
     def event_rcv_dpa(self) -> None:
